@@ -238,7 +238,7 @@ def unique (params : List (Value N)) : Except NativeError (Value N) :=
 
 /-- `is_even` (src/stdlib/math.rs) -/
 def is_even (value : N) : Bool :=
-  (NumOps.beq (NumOps.rem (NumX.floor value) (NumX.ofNat 2)) NumOps.zero)
+  (NumOps.beq (NumOps.rem (NumX.floor value) (NumX.ofNat 2)) (NumOps.zero : N))
 
 /-- `even` (src/stdlib/math.rs) -/
 def even (params : List (Value N)) : Except NativeError (Value N) :=
